@@ -107,6 +107,7 @@ func occurrence(cs []CallRec, i int) string {
 // drawScenario: a known-good transfer (route x fee shape x dust x passthrough).
 func drawScenario(s *Sim, r *Rng) *Scenario {
 	g := newGen(r, s.Prof)
+	g.noIGP = true
 	g.routeW, g.feeW, g.scaleW = []int{1, 1, 1}, []int{2, 3, 3, 2, 1}, []int{4, 1, 1, 0}
 	sc := &Scenario{Pair: r.Intn(NumPairs), Denom: DenomUSDC, Dust: map[string]string{}}
 	if r.Intn(4) == 0 {
@@ -732,6 +733,7 @@ func drawC06Scenario(s *Sim, r *Rng) *Scenario {
 	}
 	p := &MPayload{}
 	g := newGen(r, s.Prof)
+	g.noIGP = true
 	g.routeW = []int{1, 1, 2}
 	g.genRoute(s, p, finalDenom)
 	c := p.Canonical()
